@@ -544,6 +544,63 @@ Section Cli.
     end.
 End Cli.
 
+(* ---- the CID list of car filter (cmd/car/filter.go parseCIDS) ------------------------------------------ *)
+(* bufio.ReadLine splits at '\n' (a final line needs no terminator), strings.TrimSpace removes the
+   surrounding white space (so also the '\r' of a CRLF ending), empty lines are skipped, everything else
+   must be a CID in text form.  cid.Parse (multibase text, optional /ipfs/ prefix) is an oracle: a table
+   from accepted texts to CID bytes.  Lines longer than bufio's 4096-byte buffer are returned in pieces
+   by ReadLine; that is not modelled (no CID text is that long). *)
+Definition is_ws (b : byte) : bool :=
+  let n := b2n b in (n =? 9) || (n =? 10) || (n =? 11) || (n =? 12) || (n =? 13) || (n =? 32).
+Fixpoint trim_left (s : bytes) : bytes :=
+  match s with
+  | b :: t => if is_ws b then trim_left t else s
+  | [] => []
+  end.
+Definition trim_ws (s : bytes) : bytes := rev (trim_left (rev (trim_left s))).
+
+(* cur = the current line, reversed *)
+Fixpoint split_lines (s : bytes) (cur : bytes) : list bytes :=
+  match s with
+  | [] => [rev cur]
+  | b :: t => if b2n b =? 10 then rev cur :: split_lines t [] else split_lines t (b :: cur)
+  end.
+
+Fixpoint cid_text_lookup (tab : list (bytes * bytes)) (t : bytes) : option bytes :=
+  match tab with
+  | [] => None
+  | (k, c) :: rest => if bytes_eqb k t then Some c else cid_text_lookup rest t
+  end.
+
+Fixpoint parse_cid_lines (tab : list (bytes * bytes)) (lines : list bytes) : option (list bytes) :=
+  match lines with
+  | [] => Some []
+  | l :: rest =>
+    match trim_ws l with
+    | [] => parse_cid_lines tab rest
+    | t => match cid_text_lookup tab t with
+           | None => None                                    (* cid.Parse fails: the command stops *)
+           | Some c => match parse_cid_lines tab rest with
+                       | Some cs => Some (c :: cs)
+                       | None => None
+                       end
+           end
+    end
+  end.
+
+Definition parse_cids (tab : list (bytes * bytes)) (text : bytes) : option (list bytes) :=
+  parse_cid_lines tab (split_lines text []).
+
+(* car filter with its CID list as text (from --cid-file or stdin: the same parser); a list that
+   does not parse stops the command before the output is touched *)
+Definition filter_cmd (hok : bytes -> bytes -> option bool) (hdrdec : bytes -> option (list bytes * N))
+           (tab : list (bytes * bytes)) (text : bytes) (inv : bool) (ver : N) (app : bool)
+           (infile : bytes) (outf : option bytes) : bool * option bytes :=
+  match parse_cids tab text with
+  | None => (false, outf)
+  | Some sel => filter_car hok hdrdec sel inv ver app infile outf
+  end.
+
 (* ---- layer B: what the property says the outputs are ------------------------------------------------- *)
 (* first occurrence of every multihash, identity blocks dropped: what a default ReadWrite blockstore keeps *)
 Definition mh_of (c : bytes) : option (N * bytes) :=
